@@ -20,7 +20,7 @@ from common import log
 GENERIC_FILES = {'wbxml_buffers.c', 'wbxml_lists.c', 'wbxml_elt.c', 'wbxml_base64.c', 'wbxml_charset.c',
                  'wbxml_mem.c', 'oom_alloc.c'}
 ALLOC_RE = re.compile(r'\bwbxml_(malloc|realloc|strdup)\s*\(')
-HARNESS_FRAMES = ('main', 'conv_main', 'one_run', 'do_conv', 'unit_main', 'do_U', 'do_P', 'do_S', 'do_T', 'do_B', 'do_D',
+HARNESS_FRAMES = ('main', 'conv_main', 'one_run', 'do_conv', 'unit_main', 'do_U', 'do_P', 'do_S', 'do_T', 'do_B', 'do_D', 'do_X', 'do_F',
                   'decode_canon', 'equivalent_wbxml')
 EXCLUDED_OBJS = ('wbxml_mem.c.o', 'wbxml_parser.c.o', 'wbxml_encoder.c.o')
 N_OPTS = 6
@@ -680,6 +680,497 @@ def gen_D(rng, infos):
     return ' '.join([lang, wb, hdr, st, pid, ';'.join(pre) if pre else '-', root, ';'.join(items) if items else '-'])
 
 
+# ------------------------------------------------------------------------------ X: wbxml_tree_to_xml
+
+def xml_info(exe, env, letter):
+    """What gen_X needs of a language table (harness verb OOM XINFO)."""
+    r = common.run([exe, 'unit'], input='OOM XINFO %s\n' % letter, env=env, stderr=subprocess.PIPE)
+    m = re.match(r'XINFO attrtable=(\d) syncml=(\d) syncml12=(\d) root=(\S+) pubid=(\S+) dtd=(\S+) tags=(\S+) ns=(\S+) attrs=(\S+)', r.stdout.strip())
+    if not m:
+        raise common.BuildError('harness OOM XINFO failed: ' + (r.stdout + (r.stderr or ''))[-400:])
+    tags = []
+    for x in m.group(7).split(','):
+        row, page, tok, binary, name = x.split(':')
+        tags.append({'row': int(row), 'page': int(page), 'token': int(tok), 'binary': binary == '1', 'name': name})
+    ns = {} if m.group(8) == 'N' else dict((int(a), b) for a, b in (x.split(':') for x in m.group(8).split(',')))
+    attrs = [] if m.group(9) == 'N' else [(int(a), b, c) for a, b, c in (x.split(':') for x in m.group(9).split(','))]
+    return {'letter': letter, 'spec': '%s:%s%s%s:%s:%s:%s' % (letter, m.group(1), m.group(2), m.group(3), m.group(4), m.group(5), m.group(6)),
+            'tags': tags, 'ns': ns, 'has_ns': m.group(8) != 'N', 'attrs': attrs}
+
+
+X_TEXTS = [b'x', b'ab', b'hello world', b'a<b>&"c\'d', b'line1\r\nline2\tend', b'   ', b'\n', b'  padded  ', b']]>', b'a]]>b]]', b'\x00\x01\xfe',
+           b'application/vnd.syncml-devinf+wbxml', b'application/vnd.syncml.dmtnds+wbxml', b'text/x-vcard', b'QUJD', b'0123456789' * 7]
+X_LITS = [b'x', b'Data', b'lit-elt', b'a:b']
+
+
+def gen_X(rng, xinfos):
+    """Tree for wbxml_tree_to_xml: returns '<gen> <indent> <keepws> <lang> <node>'.  The annotations the model reads
+    (XML name, declared namespace, binary tag, MetInf <Type>) are computed here from the tables."""
+    li = xinfos[rng.choice('WWSSSA')]
+    budget = [rng.choice([1, 2, 3, 5, 8, 12, 20])]
+
+    def text():
+        t = rng.choice(X_TEXTS) if rng.random() < 0.7 else bytes(rng.choice(b'ab <&\n\r\t"\']>') for _ in range(rng.choice([0, 1, 2, 5, 17, 60, 300])))
+        return 'T' + hx(t)
+
+    def attrs(info):
+        out = []
+        for _ in range(rng.choice([0, 0, 0, 1, 2, 3])):
+            v = hx(bytes(rng.choice(b'ab <&"\'\n\t1') for _ in range(rng.choice([0, 1, 3, 9, 40]))))
+            c = rng.random()
+            if c < 0.5 and info['attrs']:
+                row, name, _ = rng.choice(info['attrs'])
+                out.append('T%d:%s=%s' % (row, name, v))
+            elif c < 0.95:
+                out.append('L%s=%s' % (hx(rng.choice([b'id', b'a', b'class', b'xml:lang'])), v))
+            else:
+                out.append('N=' + v)
+        return ('~' + '|'.join(out)) if out else ''
+
+    def elt(info, depth, anc_page, want=None):
+        budget[0] -= 1
+        if rng.random() < 0.8 or want is not None:
+            t = want if want is not None else rng.choice(info['tags'])
+            page = t['page']
+            ns = '-'
+            if info['has_ns'] and (anc_page is None or anc_page != page) and page in info['ns']:
+                ns = info['ns'][page]
+            head = 'ET%d/%s/%s/%d%d' % (t['row'], t['name'], ns, t['binary'], page == 1 and t['token'] == 0x13)
+            kid_page = page
+            special = t['binary'] or (page == 1 and t['token'] == 0x13)
+        else:
+            nm = rng.choice(X_LITS)
+            head = 'EL%s/%s/-/00' % (hx(nm), hx(nm))
+            kid_page = anc_page
+            special = False
+        kids = []
+        if special and rng.random() < 0.9:
+            kids.append(text())
+        while budget[0] > 0 and depth < 6 and rng.random() < 0.62:
+            kids.append(node(info, depth + 1, kid_page))
+        return head + attrs(info) + '(' + ','.join(kids) + ')'
+
+    def node(info, depth, anc_page):
+        c = rng.random()
+        if c < 0.5:
+            return elt(info, depth, anc_page)
+        if c < 0.8:
+            budget[0] -= 1
+            return text()
+        if c < 0.9:
+            budget[0] -= 1
+            return 'C(' + ','.join(text() for _ in range(rng.choice([0, 1, 1, 2]))) + ')'
+        if c < 0.97 and info['letter'] == 'S':
+            budget[0] -= 1
+            sub = xinfos['V']
+            return 'Y%s(%s)' % (sub['spec'], elt(sub, depth + 1, None))
+        if c < 0.985:
+            return 'P'
+        binary = [t for t in info['tags'] if t['binary'] or (t['page'] == 1 and t['token'] == 0x13)]
+        return elt(info, depth, anc_page, rng.choice(binary) if binary else None)
+
+    gen = rng.choice([0, 1, 1, 2])
+    return '%d %d %d %s %s' % (gen, rng.choice([0, 1, 2, 4]), rng.choice([0, 0, 1]), li['spec'], elt(li, 0, None))
+
+
+# ------------------------------------------------------------------------------ F: wbxml_tree_from_xml
+
+F_DOCTYPE = {'W': b'<!DOCTYPE wml PUBLIC "-//WAPFORUM//DTD WML 1.3//EN" "http://www.wapforum.org/DTD/wml13.dtd">',
+             'S': b'<!DOCTYPE SyncML PUBLIC "-//SYNCML//DTD SyncML 1.2//EN" "http://www.openmobilealliance.org/tech/DTD/OMA-TS-SyncML_RepPro_DTD-V1_2.dtd">',
+             'A': b'<!DOCTYPE AirSync PUBLIC "-//AIRSYNC//DTD AirSync//EN" "http://www.microsoft.com/">'}
+F_SAFE = b'abcXYZ019 .:;=+/-_'
+F_TYPES = [b'text/clear', b'text/x-vcard', b'text/x-vcalendar', b'text/directory;profile=vCard', b'text/plain', b'application/vnd.syncml-devinf+xml']
+
+
+def f_lookup_tag(info, page, name):
+    """wbxml_tables_get_tag_from_xml(lang, page, name): the current code page first, then the others in table order."""
+    for t in info['tags']:
+        if t['page'] == page and t['name'] == name:
+            return t
+    for t in info['tags']:
+        if t['page'] != page and t['name'] == name:
+            return t
+    return None
+
+
+def f_lookup_attr(info, name, value):
+    """wbxml_tables_get_attr_from_xml(lang, name, value, NULL): is there a token for this name / value?"""
+    found, comp = False, 0
+    for _, n, v in info['attrs']:
+        if n != name:
+            continue
+        if v == 'N':
+            found = True
+        else:
+            vb = bytes.fromhex(v) if v != '-' else b''
+            if vb == value:
+                return True
+            if len(vb) < len(value) and comp < len(vb) and value.startswith(vb):
+                found, comp = True, len(vb)
+    return found
+
+
+def gen_F(rng, xinfos):
+    """An XML document for wbxml_tree_from_xml and the call-backs Expat will make for it, with what the tables and the
+    tree decide at each of them (token or literal names, binary tags, SyncML data types): '<xml hex> <parseOk> <events>'.
+    A shadow of the tree is kept as the call-backs build it (un-failed), because wbxml_tree_node_get_syncml_data_type()
+    and the missing-CDATA rule look at it."""
+    L = rng.choice('WWWSSSAA')
+    info = xinfos[L]
+    ns2page = dict((bytes.fromhex(v), k) for k, v in info['ns'].items())
+    root_ns = {'W': None, 'S': b'SYNCML:SYNCML1.2', 'A': b'http://synce.org/formats/airsync_wm5/airsync'}[L]
+    mode = rng.choice(['doctype'] * 8 + ['unknown', 'rootns'])
+    if mode == 'rootns' and L != 'S':
+        mode = 'doctype'
+    lang_ok = mode != 'unknown'
+    xml = [b'<?xml version="1.0"?>\n']
+    if mode == 'doctype':
+        xml.append(F_DOCTYPE[L] + b'\n')
+    events = []
+    # shadow tree: node = {'k': 'E'|'C'|'T', 'name': bytes, 'bin': bool, 'kids': [...], 'text': bytes, 'cache': None|bytes, 'parent': node}
+    state = {'cur': None, 'root': None, 'err': False, 'last_raw': False}
+
+    def add_child(parent, node):
+        node['parent'] = parent
+        if parent is None:
+            state['root'] = node
+        else:
+            parent['kids'].append(node)
+
+    def find_elt(kids, name):
+        for k in kids:
+            if k['k'] == 'E' and k['name'] == name:
+                return k
+        return None
+
+    def data_type(node):
+        if node is None:
+            return 0
+        if node['k'] == 'C':
+            node = node['parent']
+        if node is None or node['k'] != 'E' or node['name'] != b'Data':
+            return 0
+        par = node['parent']
+        typ = None
+        if par is not None:
+            m = find_elt(par['kids'], b'Meta')
+            if m is not None:
+                typ = find_elt(m['kids'], b'Type')
+            if typ is None and par['parent'] is not None:
+                m = find_elt(par['parent']['kids'], b'Meta')
+                if m is not None:
+                    typ = find_elt(m['kids'], b'Type')
+        if typ is not None and typ['kids'] and typ['kids'][0]['k'] == 'T':
+            t = typ['kids'][0]['text']
+            if t in (b'application/vnd.syncml-devinf+wbxml', b'application/vnd.syncml-devinf+xml',
+                     b'application/vnd.syncml.dmtnds+wbxml', b'application/vnd.syncml.dmtnds+xml'):
+                return 0
+            if t == b'text/clear':
+                return 1
+            if t in (b'text/directory;profile=vCard', b'text/x-vcard', b'text/x-vcalendar'):
+                return 2
+        if par is not None and par['parent'] is not None and par['parent']['k'] == 'E' and par['parent']['name'] in (b'Add', b'Replace'):
+            return 2
+        return 0
+
+    def add_text(parent, text):
+        kids = parent['kids'] if parent is not None else None
+        if kids and kids[-1]['k'] == 'T':
+            kids[-1]['text'] += text
+        elif parent is None:
+            if state['root'] is None:
+                state['root'] = {'k': 'T', 'text': text, 'kids': [], 'parent': None}
+            else:
+                state['err'] = True
+        else:
+            add_child(parent, {'k': 'T', 'text': text, 'kids': []})
+
+    def ev_chars(chunk):
+        cur = state['cur']
+        dt = data_type(cur)
+        binary = False
+        if not state['err']:
+            text = b'\r\n' if (dt == 2 and chunk == b'\n') else chunk
+            if dt != 0 and cur is not None and cur['k'] != 'C' and not (cur['kids'] and cur['kids'][0]['k'] == 'C'):
+                c = {'k': 'C', 'kids': []}
+                add_child(cur, c)
+                state['cur'] = cur = c
+            if cur is not None and cur['k'] == 'E' and cur['bin']:
+                binary = True
+                cur['cache'] = (cur['cache'] or b'') + text
+            else:
+                add_text(cur, text)
+        events.append('C%d%d%s' % (dt, binary, hx(chunk)))
+
+    def emit_text(pieces):
+        """pieces: ('raw', bytes without newline) | ('nl',) | ('ent', xml, char)"""
+        for p in pieces:
+            if p[0] == 'raw':
+                if not p[1]:
+                    continue
+                xml.append(p[1])
+                if state['last_raw']:
+                    # Expat delivers one run: extend the previous event and the shadow text
+                    prev = events.pop()
+                    old = bytes.fromhex(prev[3:]) if prev[3:] != '-' else b''
+                    undo_chars(old)
+                    ev_chars(old + p[1])
+                else:
+                    ev_chars(p[1])
+                state['last_raw'] = True
+            elif p[0] == 'nl':
+                xml.append(b'\n')
+                ev_chars(b'\n')
+                state['last_raw'] = False
+            else:
+                xml.append(p[1])
+                ev_chars(p[2])
+                state['last_raw'] = False
+
+    def undo_chars(old):
+        cur = state['cur']
+        if state['err'] or cur is None:
+            return
+        if cur['k'] == 'E' and cur['bin']:
+            cur['cache'] = cur['cache'][:len(cur['cache']) - len(old)] or None
+        elif cur['kids'] and cur['kids'][-1]['k'] == 'T':
+            t = cur['kids'][-1]
+            t['text'] = t['text'][:len(t['text']) - len(old)]
+            if not t['text']:
+                cur['kids'].pop()
+
+    def rand_pieces(binary=False):
+        out = []
+        for _ in range(rng.choice([1, 1, 2, 3, 5])):
+            c = rng.random()
+            if binary:
+                if c < 0.6:
+                    import base64
+                    out.append(('raw', base64.b64encode(bytes(rng.getrandbits(8) for _ in range(rng.choice([1, 2, 3, 10, 40])))) ))
+                elif c < 0.8:
+                    out.append(('nl',))
+                elif c < 0.9:
+                    out.append(('raw', b'  '))
+                else:
+                    out.append(('raw', b'!!'))
+            elif c < 0.6:
+                out.append(('raw', bytes(rng.choice(F_SAFE) for _ in range(rng.choice([1, 2, 5, 17, 60])))))
+            elif c < 0.85:
+                out.append(('nl',))
+            else:
+                out.append(rng.choice([('ent', b'&lt;', b'<'), ('ent', b'&amp;', b'&'), ('ent', b'&#65;', b'A')]))
+        # no two raw runs in a row (they would be one run for Expat)
+        res = []
+        for p in out:
+            if p[0] == 'raw' and res and res[-1][0] == 'raw':
+                res[-1] = ('raw', res[-1][1] + p[1])
+            else:
+                res.append(p)
+        return res
+
+    budget = [rng.choice([1, 2, 3, 5, 8, 12])]
+
+    def start(name, ns, attrs):
+        """name: local name; ns: namespace in scope (bytes or None); attrs: [(qname bytes, value bytes)]"""
+        page = ns2page.get(ns, 0) if ns is not None else 0
+        t = f_lookup_tag(info, page, name.hex())
+        tag = ('T1' if t['binary'] else 'T') if t else 'L' + hx(name)
+        al = []
+        for qn, v in attrs:
+            if qn.startswith(b'xml:'):
+                local = qn[4:]
+                full = b'xml:' + local
+                tok = f_lookup_attr(info, full.hex(), v) if info['attrs'] else False
+                al.append('X%s:%s=%s' % (hx(local), 'T' if tok else 'L' + hx(full), hx(v)))
+            else:
+                tok = f_lookup_attr(info, qn.hex(), v) if info['attrs'] else False
+                al.append('%s=%s' % ('T' if tok else 'L' + hx(qn), hx(v)))
+        events.append('S%d%s%s' % (lang_ok, tag, ('/' + ';'.join(al)) if al else ''))
+        state['last_raw'] = False
+        if not state['err']:
+            if state['cur'] is None and not lang_ok:
+                state['err'] = True
+            elif state['cur'] is None and state['root'] is not None:
+                state['err'] = True
+            else:
+                n = {'k': 'E', 'name': name, 'bin': bool(t and t['binary']), 'kids': [], 'cache': None}
+                add_child(state['cur'], n)
+                state['cur'] = n
+
+    def stop():
+        cur = state['cur']
+        binary = bool(cur is not None and cur['k'] == 'E' and cur['bin'])
+        decoded = b''
+        if binary and cur['cache'] is not None:
+            import base64
+            txt = bytes(ch for ch in cur['cache'] if ch not in b' \t\n\r\x0b\x0c')
+            k = 0
+            while k < len(txt) and (chr(txt[k]).isalnum() or txt[k] in b'+/'):
+                k += 1
+            good = txt[:k]
+            good = good[:len(good) - (1 if len(good) % 4 == 1 else 0)]
+            decoded = base64.b64decode(good + b'=' * (-len(good) % 4)) if good else b''
+            cur['cache'] = None
+            if not decoded:
+                state['err'] = True
+            else:
+                add_text(cur, decoded)
+        events.append('E%d%s' % (binary, hx(decoded)))
+        state['last_raw'] = False
+        if not state['err'] and cur is not None and cur['parent'] is not None:
+            if cur['k'] == 'C':
+                cur = cur['parent']
+            state['cur'] = cur['parent']
+
+    def element(depth, ns, forced=None):
+        budget[0] -= 1
+        if forced is not None:
+            name, attrs, newns = forced
+        else:
+            names = [n for n in (bytes.fromhex(t['name']) for t in info['tags']) if re.match(rb'^[A-Za-z_][A-Za-z0-9_.-]*$', n)]
+            name = rng.choice(names) if rng.random() < 0.75 else rng.choice([b'zzz', b'Data', b'x-lit', b'Item'])
+            attrs, newns = [], ns
+            if L == 'W' or rng.random() < 0.3:
+                used = set()
+                for _ in range(rng.choice([0, 0, 0, 1, 2, 3])):
+                    if info['attrs'] and rng.random() < 0.6:
+                        _, n, v = rng.choice(info['attrs'])
+                        qn = bytes.fromhex(n)
+                        val = (bytes.fromhex(v) if v not in ('N', '-') else b'') + rng.choice([b'', b'', b'x', b'tail 12'])
+                    else:
+                        qn = rng.choice([b'id', b'a', b'class', b'xml:lang', b'xml:space', b'xml:foo'])
+                        val = rng.choice([b'', b'v', b'preserve', b'en', b'some longer value 0123456789'])
+                    if qn in used:
+                        continue
+                    used.add(qn)
+                    attrs.append((qn, val))
+            if L != 'W' and rng.random() < 0.3:
+                newns = bytes.fromhex(rng.choice(list(info['ns'].values())))
+            bins = [t for t in info['tags'] if t['binary']]
+            if bins and rng.random() < 0.35:
+                # an element whose tag is flagged binary (base64 text in XML), in the namespace of its code page
+                bt = rng.choice(bins)
+                name = bytes.fromhex(bt['name'])
+                if bt['page'] in info['ns'] and rng.random() < 0.8:
+                    newns = bytes.fromhex(info['ns'][bt['page']])
+        page = ns2page.get(newns, 0) if newns is not None else 0
+        t = f_lookup_tag(info, page, name.hex())
+        xml.append(b'<' + name)
+        if newns != ns or (depth == 0 and newns is not None):
+            xml.append(b' xmlns="' + newns + b'"')
+        for qn, v in attrs:
+            xml.append(b' ' + qn + b'="' + v + b'"')
+        start(name, newns, attrs)
+        kids = rng.choice([0, 1, 1, 2, 3]) if depth < 5 else 0
+        if kids == 0 and rng.random() < 0.5:
+            xml.append(b'/>')
+            stop()
+            return
+        xml.append(b'>')
+        for _ in range(kids):
+            c = rng.random()
+            if t and t['binary'] and c < 0.8:
+                emit_text(rand_pieces(binary=True))
+            elif c < 0.45:
+                emit_text(rand_pieces())
+            elif c < 0.55:
+                xml.append(b'<![CDATA[')
+                events.append('A')
+                state['last_raw'] = False
+                if not state['err']:
+                    n = {'k': 'C', 'kids': []}
+                    add_child(state['cur'], n)
+                    state['cur'] = n
+                emit_text([p for p in rand_pieces() if p[0] != 'ent'])
+                xml.append(b']]>')
+                events.append('Z')
+                state['last_raw'] = False
+                if not state['err'] and state['cur'] is not None and state['cur']['parent'] is not None:
+                    state['cur'] = state['cur']['parent']
+            elif budget[0] > 0:
+                element(depth + 1, newns)
+        xml.append(b'</' + name + b'>')
+        stop()
+
+    def syncml_item(ns):
+        """<CMD><CmdID>1</CmdID>[<Meta>…]<Item>[<Meta>…]<Data>…</Data></Item></CMD>"""
+        def simple(name, text, xmlns=None):
+            xml.append(b'<' + name + ((b' xmlns="' + xmlns + b'"') if xmlns else b'') + b'>')
+            start(name, xmlns or ns, [])
+            emit_text([('raw', text)])
+            xml.append(b'</' + name + b'>')
+            stop()
+
+        def meta():
+            xml.append(b'<Meta>')
+            start(b'Meta', ns, [])
+            simple(b'Type', rng.choice(F_TYPES), b'syncml:metinf')
+            xml.append(b'</Meta>')
+            stop()
+        cmd = rng.choice([b'Add', b'Replace', b'Put', b'Results'])
+        xml.append(b'<' + cmd + b'>')
+        start(cmd, ns, [])
+        simple(b'CmdID', b'1')
+        if rng.random() < 0.3:
+            meta()
+        xml.append(b'<Item>')
+        start(b'Item', ns, [])
+        if rng.random() < 0.4:
+            meta()
+        xml.append(b'<Data>')
+        start(b'Data', ns, [])
+        for _ in range(rng.choice([0, 1, 1, 2, 3])):
+            c = rng.random()
+            if c < 0.6:
+                emit_text(rand_pieces())
+            elif c < 0.8:
+                xml.append(b'<![CDATA[')
+                events.append('A')
+                state['last_raw'] = False
+                if not state['err']:
+                    n = {'k': 'C', 'kids': []}
+                    add_child(state['cur'], n)
+                    state['cur'] = n
+                emit_text([p for p in rand_pieces() if p[0] != 'ent'])
+                xml.append(b']]>')
+                events.append('Z')
+                state['last_raw'] = False
+                if not state['err'] and state['cur'] is not None and state['cur']['parent'] is not None:
+                    state['cur'] = state['cur']['parent']
+            else:
+                simple(rng.choice([b'x-lit', b'Data', b'LocURI']), b'v')
+        xml.append(b'</Data>')
+        stop()
+        xml.append(b'</Item>')
+        stop()
+        xml.append(b'</' + cmd + b'>')
+        stop()
+
+    if mode == 'unknown':
+        element(0, None, forced=(b'zzz-unknown-root', [], None))
+    elif L == 'S' and rng.random() < 0.7:
+        xml.append(b'<SyncML xmlns="SYNCML:SYNCML1.2"><SyncBody>')
+        start(b'SyncML', root_ns, [])
+        start(b'SyncBody', root_ns, [])
+        for _ in range(rng.choice([1, 1, 2])):
+            syncml_item(root_ns)
+            if rng.random() < 0.3:
+                emit_text([('nl',), ('raw', b'  ')])
+        xml.append(b'</SyncBody></SyncML>')
+        stop()
+        stop()
+    else:
+        rootname = {'W': b'wml', 'S': b'SyncML', 'A': b'Sync'}[L]
+        element(0, root_ns, forced=(rootname, [], root_ns))
+    parse_ok = 1
+    if rng.random() < 0.06:
+        # a document Expat rejects after the root element: every event above has been delivered
+        xml.append(b'<junk')
+        parse_ok = 0
+    xml.append(b'\n')
+    return '%s %d %s' % (hx(b''.join(xml)), parse_ok, ','.join(events) if events else '-')
+
+
 def gen_T(rng, info):
     """element-only tree over page-0 rows; returns (tree description, chunks the encoder must append)"""
     budget = [rng.choice([1, 2, 3, 5, 8, 12])]
@@ -732,7 +1223,7 @@ def run_lines(cmd, lines, env=None, resilient=False):
     return out
 
 
-def unit_requests(rng, tier, info, driver, seed=0, infos=None):
+def unit_requests(rng, tier, info, driver, seed=0, infos=None, xinfos=None):
     """(programs) -> request lines for every k (and pairs) using the model's own request count."""
     nU, nP, nS, nT = (60, 50, 30, 24) if tier == 'quick' else (400, 300, 150, 100)
     bases = []
@@ -756,6 +1247,11 @@ def unit_requests(rng, tier, info, driver, seed=0, infos=None):
     if infos:
         for _ in range(40 if tier == 'quick' else 400):
             bases.append(('D', gen_D(rd, infos)))
+    # X (wbxml_tree_to_xml on trees built from shapes), own generator
+    rx = random.Random('c16-X-%s' % seed)
+    if xinfos:
+        for _ in range(60 if tier == 'quick' else 600):
+            bases.append(('X', gen_X(rx, xinfos)))
     bases = [b for b in bases if b[1].strip()]
     zero = ['OOM %s 0 0 %s' % b for b in bases]
     resp = run_lines([driver], zero)
@@ -767,7 +1263,7 @@ def unit_requests(rng, tier, info, driver, seed=0, infos=None):
         for k in range(1, n + 2):           # n+1: a k that is never reached
             lines.append('OOM %s %d 0 %s' % (verb, k, body))
         npairs = 6 if tier == 'quick' else 40
-        rp = rb if verb == 'B' else (rd if verb == 'D' else rng)
+        rp = {'B': rb, 'D': rd, 'X': rx}.get(verb, rng)
         for _ in range(min(npairs, n * (n - 1) // 2)):
             k1 = rp.randint(1, max(1, n - 1))
             k2 = rp.randint(k1 + 1, n + 3)
@@ -800,6 +1296,14 @@ def unit_oracle(line, resp):
             return 'error %s with live=%d out=%s' % (ret, live, out[:20])
         if ret == '0' and live != 1:
             return 'OK with %d live blocks (expected the result only)' % live
+    if verb == 'X':
+        out = resp.rsplit('out=', 1)[-1]
+        if ret != '0' and (live != 0 or out != 'N'):
+            return 'wbxml_tree_to_xml failed with %s but live=%d out=%s' % (ret, live, out[:20])
+        if ret == '0' and hits:
+            return 'wbxml_tree_to_xml returned OK although an allocation failed'
+        if ret == '0' and (live != 1 or out == 'N'):
+            return 'wbxml_tree_to_xml returned OK with %d live blocks (expected the result only)' % live
     if verb == 'S' and ret != '0' and not hits:
         return 'error without a failure'
     if verb == 'B':
@@ -874,6 +1378,22 @@ def shrink_D(line, exe, env, driver):
 
 
 # ------------------------------------------------------------------------------ conversion level
+
+# Documents enumerated at conversion level on EVERY run, before the seeded corpus sample (kept here, not under
+# corpus/: tools/seed_eval.py restores corpus/ from git).  Each exercises an allocation site no corpus document
+# reaches.  (direction, name, bytes)
+EXTRA_DOCS = [
+    # parse_text(), WBXML output, SyncML, inside a CDATA section: a text that is one LF gets a CR inserted in place
+    # (a realloc of the TREE's text buffer inside the encoder).  Before fix 8847582 the result of
+    # wbxml_buffer_insert_cstr() was ignored: k = that realloc => WBXML_OK with `c3 01 0a` instead of `c3 02 0d 0a`
+    # (OK_DIFF).  <Data> must not sit under <Add>/<Replace>: there the XML call-back writes CR LF itself.
+    ('x2w', 'syncml-put-cdata-lf.xml',
+     b'<?xml version="1.0"?>\n<!DOCTYPE SyncML PUBLIC "-//SYNCML//DTD SyncML 1.2//EN" '
+     b'"http://www.openmobilealliance.org/tech/DTD/OMA-TS-SyncML_RepPro_DTD-V1_2.dtd">\n'
+     b'<SyncML xmlns="SYNCML:SYNCML1.2"><SyncBody><Put><CmdID>1</CmdID><Item><Data><![CDATA[\n]]></Data></Item></Put>'
+     b'</SyncBody></SyncML>\n'),
+]
+
 
 def conv_task(exe, env, direction, path, optset, mode, maxruns=0, kfrom=0, kto=0, timeout=1500):
     cmd = [exe, 'conv', direction, path, str(optset), mode]
@@ -1006,6 +1526,18 @@ def run(res, args):
         if os.path.exists(path):
             replay_tasks.append((e['direction'], path, e['optset'], 'single', 0, 0, 0))
 
+    extra_dir = os.path.join(b.dir, 'c16extra')
+    os.makedirs(extra_dir, exist_ok=True)
+    extra_label, extra_data = {}, {}
+    for direction, name, data in EXTRA_DOCS:
+        path = os.path.join(extra_dir, name)
+        with open(path, 'wb') as f:
+            f.write(data)
+        extra_label[path] = 'tools/props/c16.py:EXTRA_DOCS[%s]' % name
+        extra_data[path] = data
+        for o in range(N_OPTS):
+            replay_tasks.append((direction, path, o, 'single', 0, 0, 0))
+
     # ---- (1) unit level: harness vs ledger model
     info = unit_info(exe, env)
     lines = []
@@ -1015,7 +1547,8 @@ def run(res, args):
         pass
     lines += [l for l in D_REPLAYS if l not in lines]
     infos = {'W': info, 'R': unit_info(exe, env, 'R')}
-    lines += unit_requests(rng, res.tier, info, driver, res.seed, infos)
+    xinfos = {k: xml_info(exe, env, k) for k in 'WSVA'}
+    lines += unit_requests(rng, res.tier, info, driver, res.seed, infos, xinfos)
     t0 = time.time()
     chunks = [lines[i::common.NCPU] for i in range(common.NCPU)]
     with ThreadPoolExecutor(common.NCPU) as ex:
@@ -1091,8 +1624,9 @@ def run(res, args):
             e = found.get(key)
             if e is None or (size, a['k1']) < (e['size'], e['k1']):
                 found[key] = {'size': size, 'k1': a['k1'], 'k2': a['k2'], 'count': (e['count'] if e else 0) + 1, 'symptom': sym, 'site': site, 'detail': detail,
-                              'direction': t['dir'], 'document': os.path.relpath(t['path'], common.VERIF), 'optset': t['optset'],
+                              'direction': t['dir'], 'document': extra_label.get(t['path']) or os.path.relpath(t['path'], common.VERIF), 'optset': t['optset'],
                               'options': (W2X_OPTS if t['dir'] == 'w2x' else X2W_OPTS)[t['optset']], 'mode': t['mode'],
+                              'document_hex': extra_data[t['path']].hex() if t['path'] in extra_data else None,
                               'sanitizer_report': a.get('report_head', ''), 'raw': {k: v for k, v in a['kv'].items() if k != 'report'}}
             else:
                 e['count'] += 1
@@ -1102,6 +1636,7 @@ def run(res, args):
         'runs_with_one_or_two_failures': tot['runs'], 'requests_in_unfailed_runs': tot['requests_unfailed'],
         'outcome_error_clean': tot['err'], 'outcome_ok_identical': tot['oksame'], 'outcome_ok_equivalent_wbxml': tot['okequiv'],
         'oracle_failures': tot['anomalies'], 'crashes': tot['crashes'], 'stored_replays_run_first': len(replay_tasks),
+        'extra_documents': sorted(extra_label.values()),
         'seconds': round(conv_secs, 1),
         'oracle': 'status != OK => out pointer NULL, length 0, no ledger fault, live blocks == before; status OK => output byte-identical to the '
                   'un-failed run (a differing WBXML result counts as correct only if both decode to the same canonical XML), live == the result; '
